@@ -82,9 +82,17 @@ def main(argv=None):
         print("no check for %s" % prop)
         return 3
     t0 = time.time()
-    res = driver.run_property(prop, tier=args.tier, seed=seed, jobs_n=args.jobs, only=args.only)
-    extra = props.extra_checks(prop, args.tier, seed) if hasattr(props, "extra_checks") and not args.only else None
-    code = report(prop, res, args, extra)
+    import shutil
+    import tempfile
+
+    root = tempfile.mkdtemp(prefix="pyvc_scratch_")
+    os.environ["PYVC_SCRATCH_ROOT"] = root  # worker processes put their files here; removed below
+    try:
+        res = driver.run_property(prop, tier=args.tier, seed=seed, jobs_n=args.jobs, only=args.only)
+        extra = props.extra_checks(prop, args.tier, seed) if hasattr(props, "extra_checks") and not args.only else None
+        code = report(prop, res, args, extra)
+    finally:
+        shutil.rmtree(root, True)
     return code
 
 
